@@ -255,6 +255,7 @@ PROPS = {
             "a higher header incarnation refutes the suspicion at the receiver; the pending timeout then does nothing (no TurnUndead since the fix for F2)": "theorem (full): higher_incarnation_refutes_at_receiver, refuted_timeout_does_nothing, C11.cancelled_timeout_is_noop",
             "the suspected member bumps its incarnation strictly above the suspicion; a suspicion needs the current incarnation": "theorem (full): suspected_member_bumps_incarnation, suspicion_needs_current_incarnation",
             "a refuted suspicion never takes effect, over whole histories": "theorem (full): C04H.refuted_suspicion_never_takes_effect — from any reachable state in which x is recorded above the suspected incarnation i, over any history of public calls without the forget-timer of that address (stale gossip at or below i, repeated suspicions, any bytes, any RNG): every record bearing x stays above i or Down, and the timeout for (x, i), whenever and however often it fires, leaves the member list as it is, applies nothing and changes nobody's activity; C04H.refutation_is_final(_step), timeout_past_record; Proofs/RefInv.lean",
+            "the refutation is any datagram from the suspected member at a higher incarnation (whole call)": "theorem (full, any state, any message kind and payload, any RNG): C04H.datagram_from_member_refutes — an instance that successfully handled a datagram addressed to it whose header comes from x at an incarnation above i records x above i afterwards (or as Down, or its address under a higher generation): RefInv x i, the premise of refuted_suspicion_never_takes_effect; with C10.refutation_exceeds_suspicion (every datagram the suspected member sends after learning of the suspicion carries a higher incarnation) the refutation loop is closed up to delivery: one datagram of any kind from the member before the timeout. Proofs/Refute.lean (updateKnown_establishes, applyUpdate_establishes), run decomposition handleData_ok",
             "no MemberDown/Defunct/Rejoin anywhere and re-convergence after any single drop": "partial: real-time race between refutation and timeout explored by the simulator (every datagram index in a window, n = 2..6, notify_down_members on/off, renewable or not)",
         },
         "search: simulator, formed cluster, exactly one datagram (by send serial number, any kind) dropped in a window after warm-up; oracle: no MemberDown/Defunct/Rejoin afterwards and everybody lists everybody Alive at the horizon. " + RULE_HIST,
